@@ -7,8 +7,10 @@
   Not covered (never generated): `NaN`/`Infinity`, lone surrogates, non-string keys.
 
   These two functions instantiate the `Libs.dumps/loads` parameters of TmVerif.Codec.Payload in the
-  driver; the correspondence run checks them against Python's `json` on every generated value.
-  `TmVerif.Codec.JsonProof` proves `loads (dumps v) = some v`.
+  driver, and model `json.dumps/json.loads` of the Partition `data` field in TmVerif.Codec.Ldap; the
+  correspondence run checks them against Python's `json` on every generated value and on a malformed
+  stream.  Their round trip `loads (dumps v) = some v` is NOT proved here: the payload theorems take
+  it as the hypothesis about the library, the LDAP theorems as `DictOK` for the one dict-typed field.
 -/
 import TmVerif.Codec.Dec
 
